@@ -71,6 +71,12 @@ def build_body(case: dict) -> tuple[bytes, str, dict]:
         p = dict(p)
         if p.get("repeat"):
             unit = p.get("unit") or "x"
+            # bare-LF / bare-CR bodies are only well-formed with payloads free of the other newline kind
+            style = spec.get("newline", "crlf")
+            if style == "lf":
+                unit = unit.replace("\r", "") or "x"
+            elif style == "cr":
+                unit = unit.replace("\n", "") or "x"
             p["payload"] = (unit * (int(p["repeat"]) // max(1, len(unit)) + 1))[: int(p["repeat"])]
         hdrs = []
         for h in p.get("headers", []):
@@ -329,4 +335,94 @@ class FormLimits(Scenario):
         return out
 
 
-SCENARIOS = [FormLimits()]
+class RequestDefaults(Scenario):
+    """The limits a plain ``Request`` applies when the application configures nothing
+    (max_form_memory_size 500 000 bytes, max_form_parts 1000) must reach the parsers."""
+
+    pid = "C10"
+    name = "c10_request_defaults"
+    cases = {"quick": 64, "thorough": 1200}
+    chunk = 4
+    cpu_limit = 60.0
+    real = "werkzeug.wrappers.Request class defaults -> FormDataParser -> MultiPartParser / MultipartDecoder / _parse_urlencoded"
+    stubs = "request input stream (SimStream short reads), bodies sized around the default limits"
+    rule = "non-trivial = every case (sizes straddle a default limit); distinct = (kind, size relative to the limit, framing, schedule)"
+
+    def generate(self, rng: random.Random, tier: str) -> dict:
+        kind = rng.choice(["field", "parts", "urlencoded", "file"])
+        return {
+            "kind": kind,
+            "delta": rng.choice([-2, -1, 0, 1, 2, 1000]),
+            "framing": rng.choice(["declared", "chunked_terminated"]),
+            "tape": [] if rng.random() < 0.5 else [rng.choice([0, 0, 1000, 65535, 7]) for _ in range(40)],
+            "max_read": rng.choice([0, 0, 4096, 100000]),
+        }
+
+    def execute(self, case: dict) -> Outcome:
+        from werkzeug.exceptions import HTTPException
+        from werkzeug.wrappers import Request
+
+        out = Outcome()
+        tr = Trace()
+        pre = f"{self.pid}/{self.name}"
+        kind = case.get("kind", "field")
+        delta = case.get("delta", 0) if isinstance(case.get("delta"), int) and -10 <= case.get("delta") <= 5000 else 0
+        mfms, mfp = Request.max_form_memory_size, Request.max_form_parts
+        over = False
+        if kind == "parts":
+            n = mfp + delta
+            body = b"".join(b'--b\r\nContent-Disposition: form-data; name="p%d"\r\n\r\nv\r\n' % i for i in range(n)) + b"--b--\r\n"
+            ctype = "multipart/form-data; boundary=b"
+            over = n > mfp
+            expect_items = n
+        elif kind == "urlencoded":
+            size = mfms + delta
+            body = b"a=" + b"x" * (size - 2)
+            ctype = "application/x-www-form-urlencoded"
+            over = size > mfms
+            expect_items = 1
+        else:
+            size = mfms + delta
+            part = b"x" * size
+            disp = b'form-data; name="f"' + (b'; filename="big.bin"' if kind == "file" else b"")
+            body = b"--b\r\nContent-Disposition: " + disp + b"\r\n\r\n" + part + b"\r\n--b--\r\n"
+            ctype = "multipart/form-data; boundary=b"
+            over = kind == "field" and size > mfms
+            expect_items = 1
+        framing = case.get("framing", "declared")
+        sim = SimStream(body, Tape(case.get("tape")), max_read=int(case.get("max_read", 0) or 0), hang_calls=len(body) + 1000)
+        env = {"REQUEST_METHOD": "POST", "SERVER_NAME": "localhost", "SERVER_PORT": "80", "wsgi.url_scheme": "http", "PATH_INFO": "/", "SCRIPT_NAME": "", "QUERY_STRING": "", "wsgi.input": sim, "CONTENT_TYPE": ctype}
+        if framing == "declared":
+            env["CONTENT_LENGTH"] = str(len(body))
+        else:
+            env["wsgi.input_terminated"] = True
+            env["HTTP_TRANSFER_ENCODING"] = "chunked"
+        try:
+            req = Request(env)
+            n_items = len(list(req.form.items(multi=True))) + len(list(req.files.items(multi=True)))
+            res = ("ok", n_items)
+            for f in req.files.values():
+                f.close()
+        except HTTPException as e:
+            res = ("http", type(e).__name__)
+        except Exception as e:  # noqa: BLE001
+            res = ("exc", type(e).__name__, str(e)[:100])
+        tr.add(kind, delta, framing, len(body), "->", res)
+        if res[0] == "exc":
+            out.violate(f"{pre}/unexpected-exception/{res[1]}/kind={kind}", f"{res[1]}: {res[2]}")
+        elif over and res != ("http", "RequestEntityTooLarge"):
+            out.violate(f"{pre}/default-limit-not-applied/kind={kind}", f"{kind} of size limit{delta:+d} was answered {res} with the default Request limits ({mfms} bytes, {mfp} parts), framing {framing}")
+        elif not over and res != ("ok", expect_items):
+            if not (res == ("http", "RequestEntityTooLarge") and kind == "file"):
+                out.violate(f"{pre}/within-default-limits-refused-or-wrong/kind={kind}", f"{kind} of size limit{delta:+d} was answered {res}, expected {expect_items} item(s)")
+        out.digest = tr.digest()
+        out.trace = tr.events
+        out.steps = sim.calls
+        out.fault("short_read", sim.short_reads)
+        out.nontrivial = True
+        out.key = repr((kind, delta, framing, case.get("tape"), case.get("max_read")))
+        out.config = "defaults"
+        return out
+
+
+SCENARIOS = [FormLimits(), RequestDefaults()]
